@@ -77,13 +77,18 @@ CLAIMED = {
             "Trusts: z3, symx carrier. Bounded: no unbounded induction over iterations (fully symbolic pre-state is nonlinear and did not finish); float32 storage and save/load outside."),
 }
 
+CLAIMED["C19"] = ("§C19 (as built: §10.9)", "Real save / save_json / Output.from_file / get_outputs_from_file (and the solve, greedy and best-states entry points feeding them) run on a real "
+                  "scratch directory with every finite matrix entry a free z3 real carried through the REAL json encoder/decoder as a placeholder leaf: z3 decides that each entry read back "
+                  "equals the entry saved (NaN padding, shapes incl. 3-d action arrays), metadata equals its JSON stringification, and - forking over WHICH name each save of a history uses - "
+                  "that a new name leaves earlier entries unchanged, an existing name leaves the file byte-identical, and the final file is the first-save-wins union.",
+                  "Trusts: z3, symx carrier, and the JSON number-literal contract (a finite double printed by json is parsed back to the same double; NaN <-> NaN) - byte-level float printing itself "
+                  "is NOT decided (no SMT theory for shortest round-trip printing). The solver's part is small (term equality, name-choice forks); rounding / casting mutations surface at the "
+                  "engine's discretisation boundary and are then demonstrated on concrete test vectors (bit-exact comparison).",
+                  None)
+
 NOT_YET = {}
 
-NA = {
-    "C19": "Subject is byte-level behaviour of CPython's json encoder/decoder, float repr/parsing and ndarray.tolist() on concrete data: "
-           "no symbolic value survives the C serialisation boundary and there is no SMT theory of shortest-round-trip float printing; "
-           "what would remain (name-already-present dictionary logic) has no value domain for a solver (see DESIGN.md §C19).",
-}
+NA = {}
 
 
 def main():
